@@ -1,34 +1,41 @@
 """C15 - configurations mean what their parameters say; modify equals create.
 
 Spec      : spec/Config.tla.  Declarative layer (Verdict / Declared / Merge:
-            what the property says a parameter record means) and operational
-            layer (one action per code step of Configuration.create / .modify,
-            the sub-configurations' create / modify / from_dict / to_dict /
-            __eq__, parse_cosmology, the unit -> distance-measure table).  TLC
-            checks, for every parameter record and every history of
-            modifications of the explored domains, that the operational design
-            yields exactly the declared configuration (Validation,
-            ModifyEqualsCreate, WellFormed incl. "comoving edges are those of the
-            configuration's cosmology", EqualParamsCompareEqual,
-            RoundTripIdentity, OriginalUnchanged).  Deviation configs (the code
-            as found) must each produce a counterexample.
+            what the property says a parameter record means, incl. the class
+            "open" where it says nothing) and operational layer (one action per
+            code step of Configuration.create / .modify, the sub-configurations'
+            create / modify / from_dict / to_dict / __eq__, parse_cosmology, the
+            unit -> distance-measure table).  TLC checks, for every parameter
+            record and every history of modifications of the explored domains,
+            that the operational design yields exactly the declared
+            configuration: Validation, ModifyEqualsCreate, WellFormed (incl.
+            "comoving edges are those of the configuration's cosmology" and
+            "edges span exactly [zmin, zmax]"), EqualParamsCompareEqual,
+            EqNeverRaises, RoundTripIdentity, OriginalUnchanged, Termination.
+            Nine deviation configs (the code as found) must each produce their
+            counterexample, which is replayed on the real code.
 spec->code: TLC prints one line per completed public operation (history, verdict,
-            expected abstract object, expected sub-results of every code step,
-            expected observations).  EVERY such history is executed on the real
-            library; after each operation the real objects are projected to the
-            abstract state (edges are matched numerically against the formula
-            the abstract binning names: exact rationals / ln(1+z) / equal
-            comoving distance for each candidate cosmology, computed
-            independently with astropy + brentq) and compared with TLC's state;
-            the sub-steps are bound to the real ScalesConfig / BinningConfig /
-            parse_cosmology calls; angles are compared with r / D(z).
+            expected abstract object, expected sub-result of every code step,
+            expected observations).  EVERY such history of every slice is executed
+            on the real library (history trees, each edge once; forked workers);
+            after each operation the real objects are projected to the abstract
+            state (bin edges are matched numerically against the formula the
+            abstract binning names: exact rationals / ln(1+z) / equal comoving
+            distance for each candidate cosmology, computed independently with
+            astropy + brentq) and compared with TLC's state; the code steps are
+            bound to the real ScalesConfig / BinningConfig / parse_cosmology
+            calls; angles are compared with r / D(z) from astropy.
 oracle    : a violation is raised only from the real objects: outcome class
             (raised / returned) against the declared verdict, projection against
             the declared configuration, modify result against a real
             Configuration.create(**merged), original object bit-identical before
             and after, `==` of equal-parameter twins, angles vs. astropy.
             Where the property leaves the outcome open (verdict "open") only
-            drift is recorded.
+            drift is recorded.  A subtree below a divergence is not replayed.
+keys      : C15|<entry point>|<input class>|<outcome>; the input class is taken
+            from the SMALLEST sub-modification that shows the same symptom
+            (siblings with fewer parameters are replayed first), so all
+            instances of one defect share the key of its minimal trigger.
 """
 
 from __future__ import annotations
